@@ -952,11 +952,17 @@ def iter_insert(collection, position, value):
         yaql> [0, 1, 3].insert(2, 2)
         [0, 1, 2, 3]
     """
-    i = -1
-    for i, t in enumerate(collection):
+    i = 0
+    iterator = iter(collection)
+    while True:
         if i == position:
             yield value
+        try:
+            t = next(iterator)
+        except StopIteration:
+            break
         yield t
+        i += 1
 
     if position > i:
         yield value
@@ -1016,13 +1022,19 @@ def insert_many(collection, position, values):
         yaql> [0, 1, 3].insertMany(2, [2, 22])
         [0, 1, 2, 22, 3]
     """
-    i = -1
+    i = 0
     if position < 0:
         yield from values
-    for i, t in enumerate(collection):
+    iterator = iter(collection)
+    while True:
         if i == position:
             yield from values
+        try:
+            t = next(iterator)
+        except StopIteration:
+            break
         yield t
+        i += 1
 
     if position > i:
         yield from values
